@@ -1,6 +1,6 @@
 import Proofs.C15.Size
 import Proofs.C15.Text
-import Proofs.C15.Sound
+import Proofs.C15.SoundAll
 import Proofs.C15.OpsCount
 import Proofs.C15.SatCond
 import Proofs.C15.Accept
@@ -125,76 +125,125 @@ theorem max_ops_ge_script_ops (ctx : Ctx) (h160 : Bytes → Bytes) (n : Ms) (ver
   | none => rw [hs] at h; simp [addO] at h
   | some k => rw [hs] at h; simp [addO] at h; omega
 
-/- T3 (full statement, not proved): for every well-typed `n` (all fragments, both dialects), with
-   `Sat`/`Dsat` extended to every row of BIP379's satisfaction table and `exec` to every op code
-   miniscript emits, `Sound E ctx h160 n`.  T4 (full, not proved): the stack `satisfy` returns
-   is in `Sat`, has at most `max_stack_items` elements / `max_witness_size` bytes, runs within
-   `max_ops`, and `satisfy` returns none when the spending condition is false.
-   Proved below: T3 over the fragment set
-     S1 = every fragment but the three quorums: { 0, 1, pk_k, pk_h, older, after, sha256, hash256,
-            ripemd160, hash160, a:, s:, c:, d:, v:, j:, n:, and_v, and_b, or_b, or_c, or_d, or_i, andor }
-            (lock times 1 ≤ n < 2^31, non-empty keys, as `_assert_shape` requires)
-   for every candidate satisfaction/dissatisfaction of the tables (canonical and overcomplete),
-   against the minimal semantics of Model/C15/Eval.lean.  Missing: multi, multi_a, thresh; the satisfier's choice (`_better`) and
-   the bounds. -/
+/- T3, T4: the fragment set is now EVERY fragment (the quorums `multi`, `multi_a`, `thresh` included),
+   against the minimal semantics of Model/C15/Eval.lean, for every candidate satisfaction and
+   dissatisfaction of BIP379's tables (canonical and overcomplete; `Sat`, `Dsat`, and `SatL` for the
+   argument list of a `thresh`).  `s1Typed ctx n` says: every node is typed, and the numbers the
+   run reads are in range as `_assert_shape` has them — lock times 1 ≤ n < 2^31, non-empty `pk_h`
+   keys, `multi`: 1 ≤ k ≤ #keys ≤ 20, `multi_a`: 1 ≤ k ≤ #keys ≤ 999, `thresh`: 1 ≤ k ≤ #args < 2^31
+   (any script within the size limits has fewer arguments).
+   What stays partial (and is said at each theorem):
+   * acceptance under the 201-op limit is proved under `opsStaticOK` (static op count + the keys of
+     EVERY multi() ≤ 201), which is `is_within_resource_limits`' bound when no two multi() sit in
+     different branches; full statement: under `withinLimits` alone (needs the executed-path charge
+     ≤ `_ops.sat`, not proved);
+   * the witness/stack bounds of the chosen satisfaction are proved for expressions without a quorum
+     fragment and for canonical candidates (`noQuorum`, `nonCanonical = false`);
+   * the 1000-element bound DURING execution is not modelled. -/
 
-/-- T3_partial: every typed expression of S1 does to the stack what its type promises — "B": a
-    satisfaction leaves a true value of at most four bytes (exactly 0x01 when the type has "u"), a
-    dissatisfaction the empty vector, and under `v:` (its last
-    op code folded into the VERIFY form exactly when the type lacks "x") nothing; "V": consumed,
-    nothing left; "K": a key over a signature that verifies / does not; "W": as "B", next to the
-    element on top — in every enclosing executed branch, touching nothing else of the stack, the
-    altstack or the branch state. -/
-theorem type_soundness_partial (E : EvalEnv) (hsig0 : ∀ k, E.sigOK k [] = false)
+/-- T3: every typed expression — every fragment of BIP379, both dialects — does to the stack what
+    its type promises — "B": a satisfaction leaves a true value of at most four bytes (exactly 0x01
+    when the type has "u"), a dissatisfaction the empty vector, and under `v:` (its last op code
+    folded into the VERIFY form exactly when the type lacks "x") nothing; "V": consumed, nothing
+    left; "K": a key over a signature that verifies / does not; "W": as "B", next to the element on
+    top — in every enclosing executed branch, touching nothing else of the stack, the altstack or
+    the branch state.  Quorums: `multi_a` counts its signatures through CHECKSIG/CHECKSIGADD and
+    NUMEQUAL, `multi` hands k signatures in key order and the dummy to OP_CHECKMULTISIG, `thresh`
+    adds one per satisfied argument and compares with k; every count but k is a dissatisfaction.
+    Hypotheses: `hsig0` an empty signature verifies under no key; `hH` the environment's hash160 is
+    the one the script was compiled with. -/
+theorem type_soundness (E : EvalEnv) (hsig0 : ∀ k, E.sigOK k [] = false)
     (ctx : Ctx) (h160 : Bytes → Bytes) (hH : ∀ k, E.hashF .hash160 k = h160 k) (n : Ms)
     (h : s1Typed ctx n = true) :
     Sound E ctx h160 n :=
   sound_s1 E ctx h160 hsig0 hH n h
 
-/-- "z" and "o" mean what they say (S1): a satisfaction or dissatisfaction of a "z" expression has
-    no element, of an "o" expression exactly one. -/
-theorem stack_arity_partial (E : EvalEnv) (ctx : Ctx) (n : Ms) (h : s1Typed ctx n = true)
+/-- non-vacuity of T3 on quorums: `thresh(2, multi(1,K1,K2), a:multi_a…)` is not typed (dialects),
+    but `thresh(2,c:pk_k(K),s:c:pk_k(K'),s:c:pk_k(K''))` and `or_d(multi(2,K,K',K''),c:pk_k(K))` are
+    covered and typed "B" under P2WSH, `multi_a(2,X,X',X'')` under tapscript. -/
+example :
+    let k : Key := 2 :: List.replicate 32 7
+    let k' : Key := 3 :: List.replicate 32 9
+    let k'' : Key := 2 :: List.replicate 32 5
+    let t : Ms := .thresh 2 (.wrap .c (.pk_k k)) (.cons (.wrap .s (.wrap .c (.pk_k k')))
+      (.cons (.wrap .s (.wrap .c (.pk_k k''))) .nil))
+    let m : Ms := .bin .or_d (.multi 2 [k, k', k'']) (.wrap .c (.pk_k k))
+    let a : Ms := .multi_a 2 [k.tail, k'.tail, k''.tail]
+    s1Typed .p2wsh t = true ∧ (typeOf .p2wsh t).B = true ∧ s1Typed .p2wsh m = true ∧
+      (typeOf .p2wsh m).B = true ∧ s1Typed .tapscript a = true ∧ (typeOf .tapscript a).B = true := by
+  decide
+
+/-- a 2-of-3 `multi_a` with signatures for the first and the last key: [σ1, empty, σ3] (top first)
+    is a listed satisfaction; and the all-empty stack a listed dissatisfaction. -/
+example (E : EvalEnv) (k1 k2 k3 : Key) (σ1 σ3 : Bytes) (h1 : E.sigOK k1 σ1 = true)
+    (h3 : E.sigOK k3 σ3 = true) :
+    Sat E (.multi_a 2 [k1, k2, k3]) [σ1, [], σ3] ∧ Dsat E (.multi_a 2 [k1, k2, k3]) [[], [], []] :=
+  ⟨.multi_a _ _ _ (.sign _ _ _ _ _ h1 (.skip _ _ _ _ (.sign _ _ _ _ _ h3 .nil))),
+   .multi_a _ _ _ 0 (.skip _ _ _ _ (.skip _ _ _ _ (.skip _ _ _ _ .nil))) (by decide)⟩
+
+/-- "z" and "o" mean what they say: a satisfaction or dissatisfaction of a "z" expression has
+    no element, of an "o" expression exactly one (every fragment; for `thresh` through the
+    "arguments" count of `_thresh_properties`). -/
+theorem stack_arity (E : EvalEnv) (ctx : Ctx) (n : Ms) (h : s1Typed ctx n = true)
     (s : List Bytes) (hs : Sat E n s ∨ Dsat E n s) :
     ((typeOf ctx n).z = true → s.length = 0) ∧ ((typeOf ctx n).o = true → s.length = 1) := by
   rcases hs with hs | hs
   · exact (len_s1 E ctx n h).1 s hs
   · exact (len_s1 E ctx n h).2 s hs
 
-/-- T4_partial (validity half, for the tables rather than the chooser): for a top-level "B" of S1
-    that `is_within_resource_limits` and has a static op bound (`max_ops` is not None), the
-    interpreter ACCEPTS the compiled script on any stack its satisfaction table lists whose elements
-    are at most 520 bytes and 1000 in number: the 201-op and script-size limits hold (P2WSH), every
-    conditional is closed and exactly the true value is left; and it REFUSES every listed
-    dissatisfaction.  `accepts` (Model/C15/Eval.lean) is the limit-checked verdict the `exec` stream
-    compares with btclib's engine on accepted AND refused witnesses; it does not model the
-    1000-element bound on the stack during execution. -/
+/-- T4_partial (validity half, for the tables rather than the chooser): for a top-level "B" (any
+    fragments) that `is_within_resource_limits` and, under P2WSH, whose static op count plus the keys
+    of every `multi()` is at most 201 (`opsStaticOK`), the interpreter ACCEPTS the compiled script
+    on any stack its satisfaction table lists whose elements are at most 520 bytes and 1000 in
+    number: the 201-op limit (the keys of the EXECUTED OP_CHECKMULTISIGs are charged: bounded here
+    by those of all of them, `charge_le`) and the script-size limit hold (P2WSH), every conditional
+    is closed and exactly the true value is left; and it REFUSES every listed dissatisfaction.
+    `accepts` (Model/C15/Eval.lean) is the limit-checked verdict the `exec` stream compares with
+    btclib's engine on accepted AND refused witnesses; it does not model the 1000-element bound on
+    the stack during execution.
+    Full statement (not proved): the same under `withinLimits` alone. -/
 theorem satisfaction_accepted_partial (E : EvalEnv) (hsig0 : ∀ k, E.sigOK k [] = false)
     (ctx : Ctx) (h160 : Bytes → Bytes) (hH : ∀ k, E.hashF .hash160 k = h160 k)
     (hh : ∀ b, (h160 b).length = 20) (n : Ms) (h : s1Typed ctx n = true)
     (hshape : shaped ctx n = true) (hB : (typeOf ctx n).B = true)
-    (hlim : withinLimits ctx n = true) (hops : (maxOps ctx n).isSome = true) (s : List Bytes) :
+    (hlim : withinLimits ctx n = true) (hst : opsStaticOK ctx n = true) (s : List Bytes) :
     (Sat E n s → (∀ e ∈ s, e.length ≤ 520) → s.length ≤ MAX_STACK_SIZE →
       accepts E ctx (opsOf ctx h160 false n) s = true) ∧
     (Dsat E n s → accepts E ctx (opsOf ctx h160 false n) s = false) :=
-  ⟨fun hs h520 h1000 => accepts_of_sat E hsig0 ctx h160 hH hh n h hshape hB hlim hops s hs h520 h1000,
+  ⟨fun hs h520 h1000 => accepts_of_sat E hsig0 ctx h160 hH hh n h hshape hB hlim hst s hs h520 h1000,
    fun hs => rejects_of_dsat E hsig0 ctx h160 hH n h hB s hs⟩
 
-/-- T4_partial (the chooser): `satisfy ⊆ Sat` and acceptance.  In an environment where the offered
-    signatures verify and are no longer than the context's largest (72 / 65 bytes), the offered
-    preimages hash to their digests and the satisfier's reading of the lock times is the
-    interpreter's (`EnvOK`, `SigsSmall`), and no digest of the expression is the hash of 32 zero
-    bytes (`zeroOK`: the satisfier's hash dissatisfaction): whatever the modelled `satisfy`
-    (`_computed_input`, `_better`; tied by the `sat` stream) returns for an expression of S1 is a
-    listed satisfaction whose elements are at most 73 bytes; hence, for a typed top-level "B" that
-    `is_within_resource_limits` with `max_ops` defined, the interpreter ACCEPTS the compiled script
-    on it (`accepts`: T3's run plus the op-count, script-size, element-size and element-count
-    limits).  That the witness has at most 1000 elements is a hypothesis here
-    (`satisfy_within_bounds_partial` bounds it by `max_stack_items` for canonical candidates). -/
+/-- `opsStaticOK` follows from `is_within_resource_limits` whenever the expression has no `multi()`
+    (in particular under tapscript, and for `multi_a`/`thresh` quorums): then nothing is charged
+    beyond the static count, which `max_ops` bounds. -/
+theorem ops_static_of_within_limits (ctx : Ctx) (n : Ms) (hm : multiKeys n = 0)
+    (hlim : withinLimits ctx n = true) (hops : (maxOps ctx n).isSome = true) :
+    opsStaticOK ctx n = true := by
+  cases ctx with
+  | tapscript => rfl
+  | p2wsh =>
+    obtain ⟨o, ho⟩ := Option.isSome_iff_exists.mp hops
+    simp only [withinLimits, ho, Bool.and_eq_true, decide_eq_true_eq] at hlim
+    have := static_le_maxOps .p2wsh n o ho
+    simp only [opsStaticOK, hm, Bool.or_eq_true, decide_eq_true_eq]
+    right
+    omega
+
+/-- T4_partial (the chooser): `satisfy ⊆ Sat` and acceptance, EVERY fragment.  In an environment
+    where the offered signatures verify and are no longer than the context's largest (72 / 65
+    bytes), the offered preimages hash to their digests and the satisfier's reading of the lock
+    times is the interpreter's (`EnvOK`, `SigsSmall`), and no digest of the expression is the hash
+    of 32 zero bytes (`zeroOK`: the satisfier's hash dissatisfaction): whatever the modelled
+    `satisfy` (`_computed_input`, `_better`, the `reached[j]` recurrences of `_multi_input` and
+    `_thresh_input`; tied by the `sat` stream) returns is a listed satisfaction whose elements are
+    at most 73 bytes; hence, for a typed top-level "B" that `is_within_resource_limits` and is
+    `opsStaticOK`, the interpreter ACCEPTS the compiled script on it.  That the witness has at most
+    1000 elements is a hypothesis here (`h1000`; `satisfy_accepted_p2wsh_partial` derives it). -/
 theorem satisfy_accepted_partial (E : EvalEnv) (hsig0 : ∀ k, E.sigOK k [] = false) (ctx : Ctx)
     (env : SatEnv) (hE : EnvOK E ctx env) (hS : SigsSmall ctx env) (h160 : Bytes → Bytes)
     (hH : ∀ k, E.hashF .hash160 k = h160 k) (hh : ∀ b, (h160 b).length = 20) (n : Ms)
     (h : s1Typed ctx n = true) (hshape : shaped ctx n = true) (hB : (typeOf ctx n).B = true)
-    (hlim : withinLimits ctx n = true) (hops : (maxOps ctx n).isSome = true)
+    (hlim : withinLimits ctx n = true) (hst : opsStaticOK ctx n = true)
     (hz : zeroOK E n = true) (w : List Bytes) (hsat : satisfy ctx env n = .ok w)
     (h1000 : w.length ≤ MAX_STACK_SIZE) :
     Sat E n w.reverse ∧ accepts E ctx (opsOf ctx h160 false n) w.reverse = true := by
@@ -209,25 +258,86 @@ theorem satisfy_accepted_partial (E : EvalEnv) (hsig0 : ∀ k, E.sigOK k [] = fa
     intro e he
     have := (small_s1 ctx env hS n hin hshape).1 w hst e he
     omega
-  exact ⟨hS', accepts_of_sat E hsig0 ctx h160 hH hh n h hshape hB hlim hops _ hS'
+  exact ⟨hS', accepts_of_sat E hsig0 ctx h160 hH hh n h hshape hB hlim hst _ hS'
     (by intro e he; exact hsmall e (List.mem_reverse.mp he)) (by simpa using h1000)⟩
 
-/-- T4 (bounds), covered set S1: whenever the modelled `satisfy` returns a witness `w` for a typed,
-    shaped top-level "B" — the spender's signatures being no longer than the context's largest
-    (72 / 65 bytes) and the chosen candidate being one of BIP379's canonical options
-    (`nonCanonical = false`: the `non_canonical` mark of the source, which `satisfy` itself does not
-    read) — `w` has at most `max_stack_items` elements and `max_witness_size` bytes (each element
-    with its length byte, as the source counts), and the script's counted op codes are at most
-    `max_ops` (S1 has no OP_CHECKMULTISIG, so these are all the ops an execution is charged). -/
+/-- non-vacuity: the hypotheses of `satisfy_accepted_partial` hold JOINTLY for a 1-of-2 `multi`
+    whose second key signs (a concrete environment whose signature check accepts exactly that
+    signature): `satisfy` returns the dummy and the signature. -/
+example :
+    let k1 : Key := 2 :: List.replicate 32 7
+    let k2 : Key := 3 :: List.replicate 32 9
+    let E : EvalEnv := ⟨fun k σ => k == k2 && σ == [9], fun _ _ => List.replicate 20 0,
+      fun _ => true, fun _ => true⟩
+    let env : SatEnv := ⟨[(k2, [9])], [], 0, 0, 2⟩
+    let h160 : Bytes → Bytes := fun _ => List.replicate 20 0
+    let n : Ms := .multi 1 [k1, k2]
+    (∀ k, E.sigOK k [] = false) ∧ EnvOK E .p2wsh env ∧ SigsSmall .p2wsh env ∧
+      (∀ k, E.hashF .hash160 k = h160 k) ∧ (∀ b, (h160 b).length = 20) ∧
+      s1Typed .p2wsh n = true ∧ shaped .p2wsh n = true ∧ (typeOf .p2wsh n).B = true ∧
+      withinLimits .p2wsh n = true ∧ opsStaticOK .p2wsh n = true ∧ zeroOK E n = true ∧
+      satisfy .p2wsh env n = .ok [[], [9]] ∧ ([[], [9]] : List Bytes).length ≤ MAX_STACK_SIZE := by
+  intro k1 k2 E env h160 n
+  have hoff : ∀ k σ, offered .p2wsh env k = some σ → k = k2 ∧ σ = [9] := by
+    intro k σ h
+    simp only [offered, lookupSig, env] at h
+    split at h
+    · rename_i hk; cases h; exact ⟨hk.symm, rfl⟩
+    · cases h
+  refine ⟨fun k => by simp [E], ⟨?_, ?_, fun _ _ => rfl, fun _ _ => rfl⟩, ?_, fun _ => rfl,
+    fun _ => by simp [h160], by decide, by decide, by decide, by decide, by decide, by decide,
+    by decide, by decide⟩
+  · intro k σ h
+    obtain ⟨rfl, rfl⟩ := hoff k σ h
+    simp [E]
+  · intro h d p hp
+    simp [preimageOf, lookupPre, env] at hp
+  · intro k σ h
+    obtain ⟨_, rfl⟩ := hoff k σ h
+    decide
+
+/-- T4 (bounds), expressions without a quorum fragment: whenever the modelled `satisfy` returns a
+    witness `w` for a typed, shaped top-level "B" — the spender's signatures being no longer than
+    the context's largest (72 / 65 bytes) and the chosen candidate being one of BIP379's canonical
+    options (`nonCanonical = false`: the `non_canonical` mark of the source, which `satisfy` itself
+    does not read) — `w` has at most `max_stack_items` elements and `max_witness_size` bytes (each
+    element with its length byte, as the source counts), and the script's counted op codes are at
+    most `max_ops`.  Full statement (not proved): the same with `multi`, `multi_a`, `thresh`
+    (`noQuorum` dropped) and without `hcan`. -/
 theorem satisfy_within_bounds_partial (ctx : Ctx) (env : SatEnv) (hS : SigsSmall ctx env)
     (h160 : Bytes → Bytes) (n : Ms) (h : s1Typed ctx n = true) (hs : shaped ctx n = true)
+    (hq : noQuorum n = true)
     (hB : (typeOf ctx n).B = true) (w : List Bytes) (hsat : satisfy ctx env n = .ok w)
     (hcan : (inputs ctx env n).sat.nonCanonical = false) :
     (∃ m, maxStackItems ctx n = some m ∧ (w.length : Int) ≤ m) ∧
     (∃ b, maxWitnessSize ctx n = some b ∧ wsum w ≤ b) ∧
     (∀ o, maxOps ctx n = some o → countNP (opsOf ctx h160 false n) ≤ o) := by
-  obtain ⟨hb, hm⟩ := satisfy_within_bounds ctx env hS n h hs hB w hsat hcan
+  obtain ⟨hb, hm⟩ := satisfy_within_bounds ctx env hS n h hs hq hB w hsat hcan
   exact ⟨hm, hb, fun o ho => max_ops_ge_script_ops ctx h160 n false o ho⟩
+
+/-- `satisfy_accepted_partial` with the 1000-element hypothesis DERIVED, P2WSH, expressions without
+    a quorum fragment, canonical candidate: `is_within_resource_limits` bounds `max_stack_items` by
+    100 and `satisfy_within_bounds_partial` the witness by `max_stack_items`. -/
+theorem satisfy_accepted_p2wsh_partial (E : EvalEnv) (hsig0 : ∀ k, E.sigOK k [] = false)
+    (env : SatEnv) (hE : EnvOK E .p2wsh env) (hS : SigsSmall .p2wsh env) (h160 : Bytes → Bytes)
+    (hH : ∀ k, E.hashF .hash160 k = h160 k) (hh : ∀ b, (h160 b).length = 20) (n : Ms)
+    (h : s1Typed .p2wsh n = true) (hshape : shaped .p2wsh n = true) (hq : noQuorum n = true)
+    (hB : (typeOf .p2wsh n).B = true) (hlim : withinLimits .p2wsh n = true)
+    (hst : opsStaticOK .p2wsh n = true) (hz : zeroOK E n = true) (w : List Bytes)
+    (hsat : satisfy .p2wsh env n = .ok w)
+    (hcan : (inputs .p2wsh env n).sat.nonCanonical = false) :
+    Sat E n w.reverse ∧ accepts E .p2wsh (opsOf .p2wsh h160 false n) w.reverse = true := by
+  obtain ⟨_, ⟨m, hm1, hm2⟩⟩ := satisfy_within_bounds .p2wsh env hS n h hshape hq hB w hsat hcan
+  have h1000 : w.length ≤ MAX_STACK_SIZE := by
+    simp only [withinLimits, hm1, Bool.and_eq_true, decide_eq_true_eq] at hlim
+    have h100 := hlim.2.2
+    have e1 : MAX_STANDARD_P2WSH_STACK_ITEMS = 100 := rfl
+    have e2 : MAX_STACK_SIZE = 1000 := rfl
+    rw [e1] at h100
+    rw [e2]
+    omega
+  exact satisfy_accepted_partial E hsig0 .p2wsh env hE hS h160 hH hh n h hshape hB hlim hst hz w hsat
+    h1000
 
 /-- T4 (refusal half), about the model of the satisfier (`Model/C15/Satisfy.lean`: `_computed_input`,
     `_better`, `satisfy`, tied by the `sat` stream): when the spending condition is false for what
